@@ -238,12 +238,10 @@ int read_header(sqfs_istream_t *fp, tar_header_decoded_t *out)
 			}
 			continue;
 		case TAR_TYPE_PAX:
-			clear_header(out);
 			if (read_number(hdr.size, sizeof(hdr.size), &pax_size))
 				goto fail;
 			if (pax_size < 1 || pax_size > TAR_MAX_PAX_LEN)
 				goto fail_pax_len;
-			set_by_pax = 0;
 			if (read_pax_header(fp, pax_size, &set_by_pax, out))
 				goto fail;
 			continue;
